@@ -11,18 +11,13 @@ Theorem C03_child_read : forall f c hint idx,
 Proof. exact line_in. Qed.
 Print Assumptions C03_child_read.
 
-(* ... and into_existing() writes other.a.b.<field> (path_of prefixes the child path), in every cell but F-03b's *)
+(* ... and into_existing() writes other.a.b.<field> (path_of prefixes the child path), in every cell (finding F-03b - the positional
+   counterpart, field without instruction - was repaired in /repo: the theorem has no exception any more) *)
 Theorem C03_child_write : forall f c hint idx,
-    plain_field f c -> is_from (c_kind c) = false -> ~ f03b_cell f c hint ->
+    plain_field f c -> is_from (c_kind c) = false ->
     render_struct_line f c hint idx None = spec_line_out f c hint idx.
 Proof. exact line_out. Qed.
 Print Assumptions C03_child_write.
-
-Theorem C03_child_write_refuted :
-  exists f c hint idx, plain_field f c /\ is_from (c_kind c) = false /\ f03b_cell f c hint /\
-                       render_struct_line f c hint idx None <> spec_line_out f c hint idx.
-Proof. exact line_out_f03b_refuted. Qed.
-Print Assumptions C03_child_write_refuted.
 
 (* whatever the order or interleaving of the flat struct's fields: after the sort by first-seen
    child path the members of one path are contiguous, and the sort neither loses nor duplicates a member *)
